@@ -1,7 +1,8 @@
 (* codecs/h265_packet.go: H265Payloader.Payload, H265Packet.Unmarshal with its four payload
    structures, header accessors, IsPartitionHead.  Fixed tree: single-NALU fragments are copies,
-   TSCI is built from phes[0..2] in the 32-bit layout its accessors read.  The pinned behaviours
-   KF-C14-lone-fu and KF-C14-donl-every-fu are modelled as they are. *)
+   TSCI is built from phes[0..2] in the 32-bit layout its accessors read.  A unit whose payload would fill
+   exactly one fragment is sent as a single NAL unit packet (repair of the former KF-C14-lone-fu);
+   the pinned behaviour KF-C14-donl-every-fu is modelled as it is. *)
 From Coq Require Import ZArith List Lia Bool.
 From RTP Require Import Base.Bits Base.Res Base.ListX Base.Bytes Base.Own Model.AnnexB.
 Import ListNotations.
@@ -125,6 +126,15 @@ Definition h5_nalu (mtu : Z) (st : h265pay) (b : h5buf) (nalu : list Z) : res (h
       else
         match h5_flush st b with
         | Ok (st1, out1) =>
+          if zlen body <=? maxf then
+            (* the payload would fill a single fragment: the unit goes out as a single NAL unit packet
+               (bufferedNALUs = [nalu]; flushBufferedNals()) *)
+            match h5_flush st1 (mkH5Buf [nalu] 0) with
+            | Ok (st2, out2) => Ok (st2, mkH5Buf [] 0, out1 ++ out2)
+            | Err e => Err e
+            | Panic => Panic
+            end
+          else
           match h5_fus (S (length body)) st1 maxf h0 h1 (nh_type (Z.lor (Z.shiftl h0 8) h1)) (zlen body) body with
           | Ok (st2, out2) => Ok (st2, mkH5Buf [] 0, out1 ++ out2)
           | Err e => Err e
